@@ -280,6 +280,9 @@ def main(check, argv=None):
     if seed0 is None:
         seed0 = int(os.environ.get("VERIF_SEED", DEFAULT_SEED))
     cfgs = check.configs(tier) if hasattr(check, "configs") else [{}]
+    if tier == "thorough":
+        # checks scale their workloads / fault budgets on this flag
+        cfgs = [dict(c, _tier="thorough") for c in cfgs]
 
     if args.one is not None:
         opts = json.loads(args.opts) if args.opts else \
@@ -316,6 +319,8 @@ def main(check, argv=None):
 
     # enumerated part (fault_enumeration checks) -- cases come first
     sweep_cases = list(check.sweep(tier)) if hasattr(check, "sweep") else []
+    if tier == "thorough":
+        sweep_cases = [dict(c, _tier="thorough") for c in sweep_cases]
     n_sweep = len(sweep_cases)
 
     chunk = getattr(check, "RUNNER_CHUNK", 20)
